@@ -9,24 +9,59 @@
 (* exactly these tokens and abstracts to exactly this tree.                *)
 (* One TLC state per observation; one VERDICT line per observation.        *)
 (***************************************************************************)
-EXTENDS Iface, Json, IOUtils, TLCExt
+EXTENDS Corrupt, Json, IOUtils, TLCExt
 
 Batch == JsonDeserialize(IOEnv.TRACE_FILE)
 
-VARIABLE i
-Init == i = 1
+VARIABLE pos
+Init == pos = 1
+
+\* an observation may carry a fault descriptor [op, i, x] applied to `base`; then the tokens the implementation
+\* saw must be exactly ApplyCorrupt(base, op, i, x)
+Faulty(ob) == ApplyCorrupt(ob.base, ob.op, ob.i, ob.x)
+
+\* The corrupted tokens are written with the canonical layout (one blank, nothing around '::').  A default value
+\* is copied verbatim and may legitimately absorb neighbouring tokens, so the harness re-lexes the text and hands over
+\* the regrouped tokens `ob.toks` with `ob.groups[k] = <<first, last>>` (indices into the corrupted tokens).
+\* The specification checks the regrouping: an order-preserving partition, every group spells its token, and only a
+\* default-value position (directly after '=') may hold more than one token.
+RECURSIVE JoinCanon(_)
+JoinCanon(s) == IF Len(s) = 1 THEN s[1]
+                ELSE s[1] \o (IF s[1] = "::" \/ s[2] = "::" THEN "" ELSE " ") \o JoinCanon(Tail(s))
+Regrouped(ob) ==
+  LET c == Faulty(ob) g == ob.groups l == ob.toks IN
+  /\ Len(g) = Len(l)
+  /\ (Len(c) = 0) = (Len(g) = 0)
+  /\ Len(g) > 0 => (g[1][1] = 1 /\ g[Len(g)][2] = Len(c))
+  /\ \A k \in 1..Len(g) :
+        /\ g[k][1] <= g[k][2]
+        /\ k < Len(g) => g[k + 1][1] = g[k][2] + 1
+        /\ JoinCanon(SubSeq(c, g[k][1], g[k][2])) = l[k]
+        /\ g[k][2] > g[k][1] => (k > 1 /\ l[k - 1] = "=")
+
+\* classification of an analysed deviation (known finding): the tree explains the tokens once the pointer /
+\* reference / const markers written on a *typename* position (typedef target, instantiation list entry) are
+\* removed, i.e. the implementation accepted and dropped exactly those markers
+RECURSIVE DropAt(_, _)
+DropAt(toks, drop) == SelectSeq([i \in 1..Len(toks) |-> IF i \in drop THEN "" ELSE toks[i]], LAMBDA t : t # "")
+QualToks == {"*", "@", "&", "const"}
+ExplainsAfterDroppingOneQual(tree, toks) ==
+  \E i \in 1..Len(toks) : toks[i] \in QualToks /\ Explains(tree, DropAt(toks, {i}))
 
 Clause(ob) ==
-  IF ~Balanced(ob.toks) THEN "accepted-unbalanced-input"
-  ELSE IF ~Explains(ob.tree, ob.toks) THEN "tree-does-not-explain-tokens"
-  ELSE ""
+  LET toks == ob.toks IN
+  IF ob.op # "" /\ ~Regrouped(ob) THEN "harness-regrouping-wrong"
+  ELSE IF ~Balanced(toks) THEN "accepted-unbalanced-input"
+  ELSE IF Explains(ob.tree, toks) THEN ""
+  ELSE IF ExplainsAfterDroppingOneQual(ob.tree, toks) THEN "tree-does-not-explain-tokens/one-qualifier-dropped"
+  ELSE "tree-does-not-explain-tokens"
 
 Next ==
-  /\ i <= Len(Batch)
-  /\ PrintT(<<"VERDICT", Batch[i].id, Clause(Batch[i])>>)
-  /\ i' = i + 1
+  /\ pos <= Len(Batch)
+  /\ PrintT(<<"VERDICT", Batch[pos].id, Clause(Batch[pos])>>)
+  /\ pos' = pos + 1
 
-Spec == Init /\ [][Next]_i
+Spec == Init /\ [][Next]_pos
 \* the whole batch was consumed
 Accepted == TLCGet("stats").diameter - 1 = Len(Batch)
 =============================================================================
